@@ -29,7 +29,7 @@ def gen_attempt(rng, kind=None):
     if kind == "pass": outputs(); a["acts"].append("exit:0"); a["expect"] = "P"
     elif kind == "output": outputs(); a["acts"].append("exit:" + str(rng.choice([0, 0, 1]))); a["expect"] = "P" if a["acts"][-1] == "exit:0" else "F"
     elif kind == "fail": outputs(); c = rng.choice([1, 2, 101, 255, 129, 137, 70, 100]); a["acts"].append(f"exit:{c}"); a["expect"] = "F"; a["code"] = c
-    elif kind == "signal": s = rng.choice([6, 9, 11, 15]); a["acts"].append(f"kill:{s}"); a["expect"] = f"FS{s}"
+    elif kind == "signal": s = rng.choice([6, 9, 11, 15, 10, 12]); a["acts"].append(f"kill:{s}"); a["expect"] = f"FS{s}"
     elif kind == "leakpass": a["acts"] += [f"child:{LEAK_TIMEOUT * 4}", "exit:0"]; a["expect"] = "L"
     elif kind == "slowpass": a["acts"] += [f"sleep:{SLOW_PERIOD + 250}", "exit:0"]; a["expect"] = "P"; a["slow"] = True
     elif kind == "timeout": a["acts"] += ["sleep:5000", "exit:0"]; a["expect"] = "T"; a["slow"] = True
@@ -262,6 +262,11 @@ test-group = 'g1'
                  "out": (140, 3000, "ascii"), "err": (141, 700, "ascii"), "expect": "F"}
         tests = [{"bin": "t_one", "pkg": "alpha", "name": "paced_output", "ignored": False, "attempts": [paced]},
                  {"bin": "t_three", "pkg": "beta", "name": "passes", "ignored": False, "attempts": [fixed_attempt("pass", 30, "P")]}]
+        # … and two tests ended by signals whose numbers differ between platforms (10 and 12: SIGUSR1 / SIGUSR2 on Linux, SIGBUS /
+        # SIGSYS on macOS): the failure must be reported with the signal that ended the test
+        for n in (10, 12):
+            tests.append({"bin": "t_two", "pkg": "alpha", "name": f"dies_by_signal_{n}", "ignored": False,
+                          "attempts": [{"kind": "signal", "acts": [f"kill:{n}"], "out": None, "err": None, "expect": f"FS{n}"}]})
         for t in tests: sc.test(t["bin"], t["name"], {"1": t["attempts"][0]["acts"]})
         sc.config = '''[profile.default]
 retries = 0
@@ -672,6 +677,11 @@ def mon_attempt_model(sc, r):
     return out
 
 
+LINUX_SIGNAMES = {1: "HUP", 2: "INT", 3: "QUIT", 4: "ILL", 5: "TRAP", 6: "ABRT", 7: "BUS", 8: "FPE", 9: "KILL", 10: "USR1", 11: "SEGV", 12: "USR2", 13: "PIPE",
+                  14: "ALRM", 15: "TERM", 16: "STKFLT", 17: "CHLD", 18: "CONT", 19: "STOP", 20: "TSTP", 21: "TTIN", 22: "TTOU", 23: "URG", 24: "XCPU", 25: "XFSZ",
+                  26: "VTALRM", 27: "PROF", 28: "WINCH", 29: "IO", 30: "PWR", 31: "SYS"}
+
+
 def mon_results(sc, r):
     """C03: per-attempt result vs what the process did; flaky iff passed after failures"""
     out = []
@@ -690,6 +700,15 @@ def mon_results(sc, r):
         gotn = [re.sub(r"FSUnixSignal\((\d+)\)", r"FS\1", g) for g in got]
         if gotn != want:
             out.append(viol(sc, r, "result", f"test {t['name']!r}: attempts reported {gotn}, the processes did {want} ({[a['kind'] for a in exp]})"))
+        # the status lines: a signal is shown under its own (Linux) name, or as its number
+        signums = {int(w[2:]) for w in want if w.startswith("FS") and w[2:].isdigit()}
+        if signums:
+            for line in r.stderr.split("\n"):
+                mm = re.match(r"\s+(?:TRY \d+ )?(SIG[A-Z0-9]+|ABORT SIG \d+|SIG \d+)\s+\[[^\]]*\]\s+(.*)$", line)
+                if not mm or mm.group(2).rstrip("\r") != f"{binary_id(t)} {t['name']}": continue
+                ok = {f"SIG{LINUX_SIGNAMES[n]}" for n in signums if n in LINUX_SIGNAMES} | {f"ABORT SIG {n}" for n in signums} | {f"SIG {n}" for n in signums}
+                if mm.group(1) not in ok:
+                    out.append(viol(sc, r, "result", f"test {t['name']!r} was ended by signal {sorted(signums)} and its status line says {mm.group(1)!r} (expected one of {sorted(ok)}): a failure is reported with the signal that ended the test"))
         for s, a in zip(sts, exp):
             slow = s.split(":")[2] == "slow"
             if a.get("slow") and not slow and a["expect"] != "T": out.append(viol(sc, r, "slow-flag", f"test {t['name']!r}: ran {SLOW_PERIOD + 250}ms with period {SLOW_PERIOD}ms but is not marked slow"))
